@@ -337,7 +337,13 @@ func runC06(c *Ctx) {
 			continue
 		}
 		failedNode := nodePathOfJob(cs.job[:strings.LastIndex(cs.job, ".")])
-		// dependents of the failed call
+		// dependents of the failed call.  Blocking does not propagate THROUGH a call that runs nothing
+		// (disabled, or mapped over a null / empty collection: such a node is finished from the start),
+		// so the closure only passes through calls that launched jobs in the reference run.
+		ranInRef := map[string]bool{}
+		for k := range cs.ref.Launches {
+			ranInRef[nodePathOfJob(k[:strings.LastIndex(k, ".")])] = true
+		}
 		dependents := map[string]bool{}
 		for changed := true; changed; {
 			changed = false
@@ -346,7 +352,7 @@ func runC06(c *Ctx) {
 					continue
 				}
 				for d := range deps {
-					if d == failedNode || dependents[d] {
+					if d == failedNode || (dependents[d] && ranInRef[d]) {
 						dependents[n] = true
 						changed = true
 					}
